@@ -29,6 +29,7 @@ type c17Case struct {
 	Via   string `json:"via"`    // lib, cli
 	Rep   int    `json:"rep,omitempty"`
 	Big   bool   `json:"big,omitempty"` // slice size 96 and larger files, so that the goroutine option really splits the work
+	Stale int    `json:"stale,omitempty"` // the set directory already holds output files of an earlier Create: 1 = longer garbage under the same names, 2 = shorter, 3 = output of a Create with other parameters
 }
 
 var c17Names = []string{"f0", "sub/f1", "f2", "sub/deep/f3"}
@@ -86,6 +87,11 @@ var c17Seq int
 // c17Create builds a fresh directory tree, runs one Create as described and
 // returns the written set files.
 func c17Create(c *c17Case, seed int64, r *core.Rec) (map[string][]byte, error) {
+	return c17CreateIn(c, seed, r, nil)
+}
+
+// c17CreateIn: stale maps output file names to content placed in the set directory before Create runs.
+func c17CreateIn(c *c17Case, seed int64, r *core.Rec, stale map[string][]byte) (map[string][]byte, error) {
 	c17Seq++
 	root := filepath.Join(workerScratch(), fmt.Sprintf("c17-%d", c17Seq))
 	os.RemoveAll(root)
@@ -107,6 +113,9 @@ func c17Create(c *c17Case, seed int64, r *core.Rec) (map[string][]byte, error) {
 		}
 		ioutil.WriteFile(p, scen.Content("uniq", seed, i, sz, 4), 0644)
 		abs = append(abs, p)
+	}
+	for n, b := range stale {
+		ioutil.WriteFile(filepath.Join(setDir, n), b, 0644)
 	}
 	if c.Fmt == "p2" {
 		perms := permutations(c.N)
@@ -198,7 +207,21 @@ func c17Run(ci interface{}, r *core.Rec) {
 		}
 		c17Base[key] = base
 	}
-	got, err := c17Create(c, r.Seed, r)
+	var stale map[string][]byte
+	if c.Stale > 0 {
+		stale = map[string][]byte{}
+		for n, b := range base {
+			switch c.Stale {
+			case 1:
+				stale[n] = append(append([]byte{}, b...), scen.Garbage(r.Seed, len(n), 40+len(b)/2)...)
+			case 2:
+				stale[n] = b[:len(b)/2]
+			case 3:
+				stale[n] = bytes.Repeat([]byte("earlier output "), 1+len(b)/8)
+			}
+		}
+	}
+	got, err := c17CreateIn(c, r.Seed, r, stale)
 	r.AddStates(1)
 	if err != nil {
 		r.Violatef("create-failed-under-variation:"+errClass(err), "%+v: %v", *c, err)
@@ -224,7 +247,7 @@ func c17Run(ci interface{}, r *core.Rec) {
 		}
 	}
 	r.Outcome(fmt.Sprintf("%s %d files=%d", c.Fmt, c.N, len(names)))
-	if c.Perm != 0 || c.G != 1 || c.Cwd != "set" || c.Spell != "rel" || c.Via != "lib" {
+	if c.Perm != 0 || c.G != 1 || c.Cwd != "set" || c.Spell != "rel" || c.Via != "lib" || c.Stale != 0 {
 		r.NontrivialCase()
 	}
 }
@@ -268,6 +291,17 @@ func c17Gen(g *core.Gen) {
 								}
 							}
 						}
+					}
+				}
+			}
+			// Create into a directory that already holds (longer / shorter / foreign) files under the output names
+			for st := 1; st <= 3; st++ {
+				for _, via := range []string{"lib", "cli"} {
+					for _, big := range []bool{false, true} {
+						if big && f == "p1" {
+							continue
+						}
+						g.Emit(&c17Case{Fmt: f, N: n, G: 2, Cwd: cwds[st%3], Spell: spells[(st+n)%5], Via: via, Stale: st, Big: big})
 					}
 				}
 			}
